@@ -2,6 +2,7 @@
 #include "optctx.h"
 #include <sstream>
 #include <cstring>
+#include <cstdlib>
 using namespace hv;
 using namespace Potassco::ProgramOptions;
 namespace {
@@ -25,19 +26,27 @@ std::string run_op(const Args& a) {
 	try { for (; k < a.size() && a[k].compare(0, 2, "o:") == 0; ++k) { if (!oc.add(a[k])) return "bad-op"; } }
 	catch (const DuplicateOption&) { return "DUP"; }
 	std::vector<std::string> payload;
-	for (; k < a.size(); ++k) { std::vector<std::string> t = split(a[k], ':'); if (t.size() != 2) return "bad-op"; payload.push_back(unhex(t[1])); }
+	int argc0 = -1; std::vector<std::string> junk;  // N:<k> = the caller's argc (1..real count); J:<hex> = cells behind the null pointer
+	for (; k < a.size(); ++k) {
+		std::vector<std::string> t = split(a[k], ':'); if (t.size() != 2) return "bad-op";
+		if (t[0] == "N") { argc0 = std::atoi(t[1].c_str()); continue; }
+		if (t[0] == "J") { junk.push_back(unhex(t[1])); continue; }
+		payload.push_back(unhex(t[1]));
+	}
 	try {
 		if (a[0] == "a") {
 			// argv[0] is the program name; argc/argv are rewritten to the remaining arguments
 			std::vector<std::string> store; store.push_back("prog"); store.insert(store.end(), payload.begin(), payload.end());
 			std::vector<char*> argv; for (std::size_t i = 0; i < store.size(); ++i) argv.push_back(const_cast<char*>(store[i].c_str()));
 			argv.push_back(0);
-			int argc = (int)store.size();
+			for (std::size_t i = 0; i < junk.size(); ++i) argv.push_back(const_cast<char*>(junk[i].c_str()));
+			int argc = argc0 >= 1 && argc0 <= (int)store.size() ? argc0 : (int)store.size();
 			ParsedValues pv = parseCommandLine(argc, &argv[0], oc.ctx, allowU, po, flags);
-			std::string rem;
-			if (argv[argc] != 0 || std::strcmp(argv[0], "prog") != 0) return "ARGV-NOT-TERMINATED";
+			std::string rem, vec;
+			if (argc < 1 || argc > (int)store.size() || argv[argc] != 0 || std::strcmp(argv[0], "prog") != 0) return "ARGV-NOT-TERMINATED";
 			for (int i = 1; i < argc; ++i) { if (i > 1) rem += ","; rem += hex(std::string(argv[i])); }
-			return values(oc, pv) + "|R:" + rem;
+			for (std::size_t i = 0; i < argv.size(); ++i) { if (i) vec += ","; vec += argv[i] ? hex(std::string(argv[i])) : std::string("~"); }
+			return values(oc, pv) + "|R:" + rem + "|V:" + vec;
 		}
 		if (a[0] == "s") {
 			// remaining arguments are not reported by parseCommandString: parse through a context to get them? use the same API as users do
